@@ -10,10 +10,10 @@ from ..core import Result
 
 POOL_MAX = 6
 SAVE_FORMATS = ['h5', 'xtc', 'dcd', 'nc', 'pdb', 'xyz', 'gro', 'trr', 'lammpstrj', 'mdcrd']
-CELL_FORMATS = ['h5', 'nc', 'dcd', 'xtc', 'trr', 'lammpstrj', 'gro', 'pdb', 'dtr', 'mdcrd', 'mdcrd']
+CELL_FORMATS = ['h5', 'nc', 'dcd', 'xtc', 'trr', 'lammpstrj', 'gro', 'pdb', 'dtr', 'mdcrd', 'mdcrd', 'rst7', 'ncrst', 'rst7']
 ANALYSES = ['distances', 'rg', 'com', 'sasa', 'dssp', 'angles', 'dihedrals', 'neighbors', 'contacts', 'displacements',
             'inertia', 'rmsd_ai']
-CELL_KINDS = ['cubic', 'ortho', 'mono', 'hex60', 'hex120', 'truncoct', 'rhombdod', 'tric', 'tric', 'neardeg']
+CELL_KINDS = ['cubic', 'ortho', 'mono', 'hex60', 'hex120', 'truncoct', 'rhombdod', 'tric', 'tric', 'neardeg', 'rhombo60', 'obtuse']
 
 
 # ------------------------------------------------------------------ generation
@@ -99,6 +99,7 @@ def generate(check, rng, tier, run_index):
             o['none'] = rng.chance(0.35)
         elif k == 'save_load':
             o['fmt'] = rng.choice(CELL_FORMATS)
+            o['few_atoms'] = rng.weighted([(0, 6), (1, 1), (2, 2), (3, 1)])     # boundary sizes: save only the first 1-3 atoms
         ops.append(o)
     return {'check': check, 'n_res': n_res, 'n_wat': n_wat, 'members': members, 'ops': ops}
 
@@ -163,6 +164,10 @@ def cell_arrays(spec, n):
         L0, A0 = (a, a, a), (109.4712206, 109.4712206, 109.4712206)
     elif kind == 'rhombdod':
         L0, A0 = (a, a, a), (60, 60, 90)
+    elif kind == 'rhombo60':
+        L0, A0 = (a, a, a), (60.0, 60.0, 60.0)       # primitive cell of fcc / diamond
+    elif kind == 'obtuse':
+        L0, A0 = (a, b, c), (100.0, 105.0, 110.0)    # all angles obtuse
     elif kind == 'neardeg':
         L0, A0 = (a, b, c), (60.0, 60.0, 118.0)      # volume factor small but positive
     else:
@@ -870,15 +875,23 @@ def execute(check, case, workdir):
                 flags = 'fmt=%s,cell=%s' % (fmt, 'complete' if m.complete else ('half' if (m.L is not None or m.A is not None) else 'none'))
                 p = os.path.join(workdir, 'c%d.%s' % (stepno, fmt))
                 ok = True
+                ts = t
+                msrc = m
+                if fmt in ('rst7', 'ncrst') and m.n > 1:
+                    ts = t[0]          # restart files hold one frame (several frames go to numbered files)
+                    msrc = Member(ts, m.xyz[:1], m.time[:1], None if m.L is None else m.L[:1], None if m.A is None else m.A[:1], m.labels)
+                if op.get('few_atoms') and msrc.xyz.shape[1] > op['few_atoms'] and fmt not in ('pdb', 'gro', 'mdcrd'):
+                    ts = ts.atom_slice(list(range(op['few_atoms'])))
+                    res.probe('save_load_with_%d_atoms' % op['few_atoms'])
                 try:
-                    t.save(p)
+                    ts.save(p)
                 except Exception as e:
                     ok = False
                     res.log.append('%d save_load(%s) m%d save raised %s' % (stepno, fmt, m.id, type(e).__name__))
                     res.probe('save_refused:' + flags)
                 if ok:
                     try:
-                        r = md.load(p) if fmt in ('h5', 'pdb', 'gro') else md.load(p, top=t.topology)
+                        r = md.load(p) if fmt in ('h5', 'pdb', 'gro') else md.load(p, top=ts.topology)
                     except Exception as e:
                         res.log.append('%d save_load(%s) load raised %s' % (stepno, fmt, type(e).__name__))
                         if judge17 and m.complete:
@@ -890,9 +903,9 @@ def execute(check, case, workdir):
                     if not judge_cell_completeness(r, m.complete, 'save_load', stepno, flags):
                         continue
                     if judge17 and m.complete and fmt not in ('pdb', 'mdcrd'):
-                        if not np.allclose(r.unitcell_lengths, m.L, rtol=2e-3, atol=2e-3) or not np.allclose(r.unitcell_angles, m.A, atol=5e-2):
-                            viol('save_load', 'cell_values', {'saved_L': m.L.tolist()[:2], 'loaded_L': r.unitcell_lengths.tolist()[:2],
-                                                              'saved_A': m.A.tolist()[:2], 'loaded_A': r.unitcell_angles.tolist()[:2]}, stepno, flags)
+                        if not np.allclose(r.unitcell_lengths, msrc.L, rtol=2e-3, atol=2e-3) or not np.allclose(r.unitcell_angles, msrc.A, atol=5e-2):
+                            viol('save_load', 'cell_values', {'saved_L': msrc.L.tolist()[:2], 'loaded_L': r.unitcell_lengths.tolist()[:2],
+                                                              'saved_A': msrc.A.tolist()[:2], 'loaded_A': r.unitcell_angles.tolist()[:2]}, stepno, flags)
                             continue
                 res.trace.append(('save_load', fmt, m.complete))
             elif kind == 'analysis':
